@@ -213,6 +213,28 @@ async fn rejected_after_rollover() -> Result<Option<String>, String> {
     Ok(None)
 }
 
+/// C05 / U20: a partition whose events live in TWO sealed segments and not in the live one (another partition's event rolled
+/// the segment over); after a reopen the next append to it must continue its sequence and its stream's version.
+async fn sequence_continues_after_reopen() -> Result<Option<String>, String> {
+    let dir = tempfile::tempdir().map_err(|e| e.to_string())?;
+    let open = || { let mut b = DatabaseBuilder::new(); b.segment_size_bytes(128 * 1024).total_buckets(1).bucket_ids_from_range(0..1).compression(false); b.open(dir.path()) };
+    let key_a = Uuid::from_u128(0x1234_5678_9abc_def0_1122_3344_5566_7788);
+    let key_b = Uuid::from_u128(0x0f0e_0d0c_0b0a_0908_8877_6655_4433_2211);
+    let (ha, hb) = (uuid_to_partition_hash(key_a), uuid_to_partition_hash(key_b));
+    let tx = |key: Uuid, hash: u16, stream: &str, len: usize| { let mut evs = smallvec::SmallVec::<[NewEvent; 4]>::new(); evs.push(NewEvent { event_id: uuid_v7_with_partition_hash(hash), stream_id: StreamId::new(stream).unwrap(), stream_version: ExpectedVersion::Any, event_name: "e".into(), timestamp: 1, metadata: vec![], payload: vec![7u8; len] }); Transaction::new(key, hash % 8, evs).unwrap() };
+    {
+        let db = open().map_err(|e| e.to_string())?;
+        for k in 0..14u64 { let r = db.append_events(tx(key_a, ha, "sa", 16 * 1024)).await.map_err(|e| e.to_string())?; if r.first_partition_sequence != k { return Ok(Some(format!("append {k} of partition A got sequence {}", r.first_partition_sequence))); } }
+        db.append_events(tx(key_b, hb, "sb", 16 * 1024)).await.map_err(|e| e.to_string())?;
+        db.shutdown().await;
+    }
+    let db = match open() { Ok(db) => db, Err(e) => return Ok(Some(format!("reopening failed: {e}"))) };
+    let r = db.append_events(tx(key_a, ha, "sa", 100)).await.map_err(|e| e.to_string())?;
+    let ver = r.stream_versions.values().next().copied();
+    if r.first_partition_sequence != 14 || ver != Some(14) { return Ok(Some(format!("after a reopen the 15th append to a partition held by two sealed segments got partition sequence {} and stream version {ver:?}, expected 14 / Some(14)", r.first_partition_sequence))); }
+    Ok(None)
+}
+
 fn txs_of(v: &Value) -> Vec<Vec<(String, String)>> {
     v.as_array().map(|a| a.iter().map(|t| t.as_array().map(|es| es.iter().map(|e| (e[0].as_str().unwrap_or("s").to_string(), e[1].as_str().unwrap_or("any").to_string())).collect()).unwrap_or_default()).collect()).unwrap_or_default()
 }
@@ -224,6 +246,11 @@ pub fn search(item: &str, seed: u64, _hint: &Value) -> Option<(Value, String)> {
     if item.contains("rollover") {
         if let Ok(Ok((first, second))) = guarded(|| block_on(rollover_ack_latency(1500))) {
             if second * 4 < first { return Some((json!({"kind": "rollover_ack", "sync_ms": 1500}), format!("with a 1500 ms sync interval the first append was acknowledged after {first} ms (it waited for the periodic fsync) but the append that rolled the segment over was acknowledged after {second} ms: it was released by the sealed segment's watermark before its own fsync"))); }
+        }
+    }
+    if item.contains("next_partition_sequence") || item.contains("latest_sequence") || item.contains("latest_version") {
+        if let Ok(Ok(Some(d))) = guarded(|| block_on(sequence_continues_after_reopen())) {
+            return Some((json!({"kind": "sequence_continues_after_reopen"}), format!("128 KiB segments: 14 events of 16 KiB to partition A (two segments), one event to partition B (third segment), close, reopen, append to A: {d}")));
         }
     }
     if item.contains("ack_handoff") || item.contains("rollover") {
@@ -264,6 +291,9 @@ pub fn run(_item: &str, input: &Value) -> Option<String> {
             Ok(Ok((first, second))) if second * 4 < first => Some(format!("first append acknowledged after {first} ms (periodic fsync), the append that rolled the segment over after {second} ms: acknowledged before its fsync")),
             _ => None,
         };
+    }
+    if input["kind"].as_str() == Some("sequence_continues_after_reopen") {
+        return match guarded(|| block_on(sequence_continues_after_reopen())) { Ok(Ok(Some(d))) => Some(d), _ => None };
     }
     if input["kind"].as_str() == Some("rejected_after_rollover") {
         return match guarded(|| block_on(rejected_after_rollover())) { Ok(Ok(Some(d))) => Some(d), _ => None };
